@@ -54,7 +54,13 @@ impl<T: ?Sized> Mutex<T> {
         loop {
             sched::sched_point(s);
             match self.inner.try_lock() {
-                Ok(g) => return Ok(self.wrap(g)),
+                Ok(g) => {
+                    // one more scheduling point *inside* the critical section: others can find the lock held
+                    // (a `try_lock` that fails, a `lock` that has to wait) however short the section is
+                    let g = self.wrap(g);
+                    sched::sched_point(s);
+                    return Ok(g);
+                }
                 Err(TryLockError::Poisoned(p)) => {
                     return Err(PoisonError::new(self.wrap(p.into_inner())))
                 }
@@ -177,7 +183,11 @@ impl<T: ?Sized> RwLock<T> {
         loop {
             sched::sched_point(s);
             match self.inner.try_read() {
-                Ok(g) => return Ok(RwLockReadGuard { guard: Some(g), key }),
+                Ok(g) => {
+                    let g = RwLockReadGuard { guard: Some(g), key };
+                    sched::sched_point(s); // (inside the critical section, see Mutex::lock)
+                    return Ok(g);
+                }
                 Err(TryLockError::Poisoned(p)) => {
                     return Err(PoisonError::new(RwLockReadGuard { guard: Some(p.into_inner()), key }))
                 }
@@ -201,7 +211,11 @@ impl<T: ?Sized> RwLock<T> {
         loop {
             sched::sched_point(s);
             match self.inner.try_write() {
-                Ok(g) => return Ok(RwLockWriteGuard { guard: Some(g), key }),
+                Ok(g) => {
+                    let g = RwLockWriteGuard { guard: Some(g), key };
+                    sched::sched_point(s); // (inside the critical section, see Mutex::lock)
+                    return Ok(g);
+                }
                 Err(TryLockError::Poisoned(p)) => {
                     return Err(PoisonError::new(RwLockWriteGuard { guard: Some(p.into_inner()), key }))
                 }
